@@ -86,7 +86,9 @@ Inductive ev :=
   | EvExit (t : nat) (k : nat) (wk : nat) (ret : sst)
   | EvIssue (u : nat) (p : option N)                 (* wake-up issued; Some p: u was registered in phase p *)
   | EvAbort (h u : nat) (prev cur : word)            (* helper h of u aborted *)
-  | EvSpur (u : nat) (q : N).                        (* suspended(q) -> pending without a wake-up issued for it *)
+  | EvSpur (u : nat) (q : N)                         (* suspended(q) -> pending without a wake-up issued for it *)
+  | EvHelp (u : nat) (prev : word).                  (* ghost: a retry helper was created for incarnation u, which was
+                                                        found active with word prev (set_thread_state, hook 208) *)
 
 (* tasks is indexed by thread OBJECT; ntasks = number of objects allocated so far *)
 Record G := { tasks : nat -> task; ntasks : nat; pend : list nat; staged : list body; log : list ev;
@@ -215,7 +217,8 @@ Definition sub_step (g : G) (s : sub) : G * sub :=
       if u <? ntasks g then              (* "null thread id encountered" otherwise *)
         let prev := tw_of g u in
         match st prev with
-        | st_active => (stage (rc_inc g u) (HelperBody u prev), SNone)   (* thread_id_ref_type(thrd) bound *)
+        | st_active => (add_log (stage (rc_inc g u) (HelperBody u prev)) (EvHelp (gid g u) prev), SNone)
+                                                                         (* thread_id_ref_type(thrd) bound *)
         | st_suspended | st_pending_boost => (g, SCas u prev)
         | _ => (g, SNone)
         end
